@@ -38,6 +38,14 @@ def _mk(ctx, backlog, d):
             await h.wait(c)
             await h.sleep(Exact('1/5'))
             return 'p'
+        if ctx.cfg.get('mode') == 'tie':
+            # the handler ends exactly when stop()'s 0.1 s grace period does: both timers are created at the same instant t_s, in an
+            # order that depends on the step offsets (jh for the handler, j for the stop), and fire in that order
+            await h.sleep(ctx.vals_c16['t_s'])
+            for _ in range(int(ctx.vals_c16['jh'])):
+                await asyncio.sleep(0)
+            await h.sleep(Exact('1/10'))
+            return 'p'
         try:
             await h.sleep(d if not ctx.cfg.get('warm') else 5)
         finally:
@@ -67,9 +75,18 @@ def t_stop(ctx):
                 st['fired'] = True
                 st['task'] = loop.create_task(do_stop())
         ctx.step_hook = hook
+    elif mode == 'tie':
+        # the in-flight handler ends at the very instant stop()'s 0.1 s grace period does, and one timer of the run (index chosen by the
+        # solver: among them the grace-period timer) is noticed up to 6 loop iterations late, as happens when iterations take time
+        t_s = ctx.real('t_s', Exact('1/100'), 1)
+        ctx.vals_c16 = dict(t_s=t_s, jh=ctx.int('jh', 0, 1), j=ctx.int('j', 0, 1))
+        late_idx = int(ctx.int('late_idx', 0, ctx.cfg.get('max_idx', 14)))
+        late_k = int(ctx.int('late_k', 1, 6))
     else:
         t_s = ctx.real('t_s', 0, 1)
     ctx.new_loop(horizon=12)
+    if mode == 'tie':
+        ctx.loop.late_timer = (late_idx, late_k)
     bus = _mk(ctx, backlog, d)
 
     async def do_stop():
@@ -86,6 +103,11 @@ def t_stop(ctx):
             m.dispatch(bus, ctx.ev(L, f'L{i}', event_timeout=30.0))
         if mode == 'time':
             await asyncio.sleep(t_s)
+            await do_stop()
+        elif mode == 'tie':
+            await asyncio.sleep(t_s)
+            for _ in range(int(ctx.vals_c16['j'])):
+                await asyncio.sleep(0)
             await do_stop()
         else:
             while 'task' not in st:
